@@ -264,6 +264,18 @@ def member_slots(cls):
     return sorted({n for c in cls.__mro__ for n, v in vars(c).items() if isinstance(v, types.MemberDescriptorType)})
 
 
+def _plain_slot_layout(cls, names):
+    """every name copyreg treats as a slot really resolves to its member descriptor (no class attribute of an
+    unslotted class in between shadows it, no stale names of a re-slotted class): the layouts the model describes"""
+    import copyreg
+    try:
+        listed = set(copyreg._slotnames(cls))
+    except Exception:          # noqa: BLE001
+        return False
+    return listed == set(names) and all(
+        isinstance(inspect.getattr_static(cls, n, None), types.MemberDescriptorType) for n in names)
+
+
 def emit_store(d):
     return coq_list(["(%s, OId %s)" % (coq_string(k), coq_nat(v)) for k, v in d.items()], "(attr * obj)")
 
@@ -305,6 +317,8 @@ def setstate_cases(rng, cls, k=4):
     if not (inspect.isfunction(fn) and fn.__name__ == "_slots_setstate"):
         return []
     names = member_slots(cls)
+    if not _plain_slot_layout(cls, names):
+        return []
     has_dict = cls.__dictoffset__ != 0
     out = []
     for _ in range(k):
@@ -337,6 +351,8 @@ def getstate_cases(rng, cls, k=2):
     if "__getstate__" in {n for c in cls.__mro__[:-1] for n in vars(c)}:
         return []
     names = member_slots(cls)
+    if not _plain_slot_layout(cls, names):
+        return []
     has_dict = cls.__dictoffset__ != 0
     out = []
     for _ in range(k):
@@ -785,6 +801,14 @@ def check_program(prog):
         plain = ms._plain[i]
         feats = {"feature_super": bool(s["super_repr"] or any(prog[a]["super_repr"] for a in _ancestors(prog, i))),
                  "hooks": s["hooks"]}
+        try:
+            fixfn = inspect.getattr_static(ms._c[i], "__setstate__", None) if i in ms._c else None
+            feats["feature_bare_dict_state"] = bool(
+                dataclasses.is_dataclass(plain) and not dataclasses.fields(plain) and plain.__dataclass_params__.frozen
+                and getattr(ms._c.get(i), "__dictoffset__", 0) != 0
+                and inspect.isfunction(fixfn) and fixfn.__name__ == "_slots_setstate")
+        except Exception:          # noqa: BLE001
+            feats["feature_bare_dict_state"] = False
         base = {"index": i, "class": s["name"], "spec": s, **feats}
         if i in ms._err:
             e = ms._err[i]
@@ -827,6 +851,13 @@ def check_program(prog):
         if diff and all("super(type, obj)" in json.dumps(sv, default=str) for _, _, sv in leaves):
             fails.append(dict(base, symptom="zero-argument super() fails in a method of the slotted class",
                               keys=["zero-arg-super"], expected={k: bo.get(k) for k in diff},
+                              got_map={k: bs.get(k) for k in diff},
+                              got=json.dumps({k: bs.get(k) for k in diff[:2]}, default=str)[:600]))
+        elif (diff and base["feature_bare_dict_state"] and all(k.startswith("rt:") for k in diff)
+              and all(isinstance(sv, list) and sv[:2] == ["exc", "AttributeError"]
+                      and "'str' object has no attribute 'items'" in sv[-1] for _, _, sv in leaves)):
+            fails.append(dict(base, symptom="copy/pickle fails: the state of a field-less frozen slotted instance is its bare __dict__",
+                              keys=["setstate-bare-dict-state"], expected={k: bo.get(k) for k in diff[:2]},
                               got_map={k: bs.get(k) for k in diff},
                               got=json.dumps({k: bs.get(k) for k in diff[:2]}, default=str)[:600]))
         elif diff:
@@ -914,7 +945,7 @@ def search(run: lib.Run, broken):
     # one representative per (symptom, keys): the one from the smallest program, then shrunk
     best = {}
     for f in fails:
-        k = (f["symptom"], tuple(f["keys"]), f["feature_super"])
+        k = (f["symptom"], tuple(f["keys"]), f["feature_super"], f.get("feature_bare_dict_state", False))
         size = (len(f["program"]), sum(len(s["fields"]) for s in f["program"]))
         if k not in best or size < best[k][0]:
             best[k] = (size, f)
